@@ -1,6 +1,8 @@
 package props
 
 import (
+	"bytes"
+	"strings"
 	"testing"
 
 	"verif/harness/core"
@@ -31,6 +33,43 @@ func FuzzC09(f *testing.F) {
 		}
 		if v := p.RunOne(c); v != nil {
 			t.Fatalf("VIOLATION-DETAIL property=C09 %s", v)
+		}
+	})
+}
+
+// FuzzC18 fuzzes (content, transfer encoding, two chunk plans) for a body + attachment message;
+// the line-discipline lint, the content round trip and the chunking metamorphic relation are the
+// oracle (c18Run).
+func FuzzC18(f *testing.F) {
+	f.Add([]byte("hello world\r\n"), byte(0), []byte{1}, []byte{57})
+	f.Add([]byte(strings.Repeat("=", 80)+"\r\n.\r\n"), byte(1), []byte{3, 5}, []byte{76})
+	f.Add(bytes.Repeat([]byte{0xff, 0x00, '\r', '\n'}, 40), byte(2), []byte{57, 1}, []byte{2, 3, 5, 7})
+	p := core.Prop[c18Case]{ID: "C18", Test: "TestC18", Run: c18Run}
+	f.Fuzz(func(t *testing.T, content []byte, enc byte, plan1, plan2 []byte) {
+		if len(content) > 4096 || len(plan1) > 8 || len(plan2) > 8 {
+			return
+		}
+		toPlan := func(b []byte) []int {
+			var out []int
+			for _, x := range b {
+				out = append(out, int(x)%120+1)
+			}
+			return out
+		}
+		encs := []string{"quoted-printable", "base64", "8bit"}
+		e := encs[int(enc)%3]
+		body := content
+		if e == "quoted-printable" {
+			// QP text is in the property's domain with CRLF/LF breaks only
+			body = bytes.ReplaceAll(bytes.ReplaceAll(content, []byte("\r\n"), []byte("\n")), []byte("\r"), []byte("?"))
+		}
+		subj := "fuzz"
+		spec := gen.MsgSpec{Encoding: e, FixedDate: true, From: "a@verif.example", To: []string{"b@verif.example"}, Subject: &subj,
+			Parts:       []gen.PartSpec{{CType: "text/plain", Content: body, Via: "writer", Prod: gen.Producer{Chunks: toPlan(plan1)}}},
+			Attachments: []gen.FileSpec{{Name: "f.bin", Content: content, Source: "writer", Prod: gen.Producer{Chunks: toPlan(plan1)}}}}
+		c := c18Case{Spec: spec, AltChunks: toPlan(plan2)}
+		if v := p.RunOne(c); v != nil {
+			t.Fatalf("VIOLATION-DETAIL property=C18 %s", v)
 		}
 	})
 }
